@@ -455,7 +455,18 @@ pub struct Violation {
 fn run_case(f: RandomFn, choices: &[u32], obs: &mut Obs) -> Res {
     crate::oracle::reset();
     let mut src = Src::new(choices);
-    match guarded(|| f(&mut src, obs)) {
+    let r = guarded(|| f(&mut src, obs));
+    if src.used() > choices.len() {
+        // the generators wanted more choices than the sequence holds (the rest was answered with 0)
+        obs.label("choice-sequence-exhausted");
+    }
+    // a reference evaluation of this case ran out of its step budget: whatever was derived from it is
+    // unreliable, the case gives no verdict
+    if crate::oracle::take_gave_up() {
+        obs.label("reference-step-budget-exceeded(case discarded)");
+        return Ok(());
+    }
+    match r {
         Ok(r) => r,
         Err(p) => Err(Failure::new(
             format!("panic while checking the case: {}", p),
@@ -1126,7 +1137,7 @@ pub fn replay(p: &Prop, path: &str) -> i32 {
             return 2;
         }
     };
-    let v: Value = match serde_json::from_str(&text) {
+    let v: Value = match crate::json::parse_json_unbounded(&text) {
         Ok(v) => v,
         Err(e) => {
             eprintln!("cannot parse {}: {}", path, e);
